@@ -165,9 +165,20 @@ CHECKS = [
         "main allocation not proved; structural bound (two groups) for the proved helpers; floats as reals",
         "contract-based deductive verification of the helper functions + bounded native exploration of the main loop (stand-in)",
         "DESIGN.md 3 (C01/C02)"),
+    chk("C20", "other",
+        "Two parts, reported separately. Proved deductively (per call, all inputs): add_metric ignores unknown components; a request "
+        "for an already subscribed channel changes nothing and does not restart the streaming task; a new request is appended once "
+        "behind the unchanged existing ones and the component's task is replaced by exactly one new pending task, the old one being "
+        "asked to cancel. Bounded only (labelled, never counted as proved): exactly-once in-order delivery on every subscribed stream "
+        "across the cancel/recreate hand-over, explored on the real MicrogridApiSource with real channels and a scripted API client.",
+        "the whole-history clause (no loss/duplication/reordering across hand-over) is only explored on the stated bounded scope; "
+        "_handle_data_stream is outside the verifier's subset; one component / one metric id in the proof; category lookup and channel "
+        "naming by assumed contract",
+        "contract-based deductive verification of the subscription bookkeeping + bounded native exploration of the hand-over (stand-in)",
+        "DESIGN.md 3 (C20)"),
 ]
 
 _PENDING = "check under construction in this session (contracts not yet written); will be claimed once its obligations discharge"
 NOT_APPLICABLE = [
     {"property_id": "C12", "reason": "formula generators are graph algorithms over networkx.DiGraph (recursive dfs, successor-set classification); no contract within reach of the VC generator expresses 'the generated formula balances for every valid graph' (DESIGN.md 4)"},
-] + [{"property_id": f"C{n:02d}", "reason": _PENDING} for n in (20,)]
+]
